@@ -49,6 +49,12 @@ def main():
                 rows.append((sid, p, demo, verdict, "%s (%.0fs)" % (vio[0] if vio else "", time.time() - t0)))
         finally:
             sh(["git", "-C", a.repo, "checkout", "--", "."])
+    # evidence files were rewritten by the runs on changed trees: restore them from the unchanged tree
+    touched = sorted(set(r[1] for r in rows if isinstance(r[1], str) and os.path.exists(os.path.join(ROOT, "harness", "props", r[1].lower() + ".py"))))
+    for p in touched:
+        cr = sh([os.path.join(ROOT, "check"), p, "--tier", "quick"], cwd=ROOT, timeout=3600)
+        if cr.returncode != 0:
+            print("WARNING: clean run of %s exits %d" % (p, cr.returncode))
     out = ["| seeded change | property | demonstration | check verdict | first line |", "|---|---|---|---|---|"]
     for r in rows:
         out.append("| %s | %s | %s | %s | %s |" % r)
